@@ -127,6 +127,9 @@ def build_models(I):
             return k
         if isinstance(x, SStr):
             raise EngineError("int() of symbolic string")
+        h = getattr(x, "__pyvc_int__", None)
+        if h is not None:
+            return h(I)
         return int(x, *a)
 
     def m_bool(x=False):
